@@ -152,6 +152,21 @@ def _schema_bucket(msg: str) -> str:
     return what
 
 
+def _foreign_descriptor(state_cls):
+    """A descriptor of the right kind with a DescriptorVersion that the parsed document does not carry."""
+    from sdc11073.mdib import descriptorcontainers as dc
+    name = state_cls.__name__.replace('StateContainer', 'DescriptorContainer')
+    dcls = getattr(dc, name, None)
+    if dcls is None:
+        return None
+    try:
+        d = dcls('vf_foreign_descriptor', None)
+    except Exception:  # noqa: BLE001
+        return None
+    d.DescriptorVersion = 7
+    return d
+
+
 def check_spec(spec):
     """All findings for one instance spec: list of (signature, detail)."""
     out = []
@@ -196,6 +211,26 @@ def check_spec(spec):
         d = C.diff(cx, cy)
         out.append((f'{P}/value-changed/{cname}.{_first_member(d)}', {'diff': [list(map(str, i)) for i in d],
                                                                       'xml': xml1.decode()[:1500]}))
+    # --- what is absent in the document comes from the documented defaults, not from whatever the constructor was given
+    try:
+        again = from_xml(cls, etree.fromstring(xml1))
+        if C.canon(again) != cy:
+            d = C.diff(cy, C.canon(again))
+            out.append((f'{P}/read-not-deterministic/{cname}.{_first_member(d)}',
+                        {'diff': [list(map(str, i)) for i in d[:3]], 'xml': xml1.decode()[:800]}))
+        if getattr(cls, 'is_state_container', False):
+            other = _foreign_descriptor(cls)
+            if other is not None:
+                with_descr = cls.from_node(etree.fromstring(xml1), other)
+                cd = C.canon(with_descr)
+                if cd != cy:
+                    d = C.diff(cy, cd)
+                    out.append((f'{P}/absent-member-taken-from-descriptor/{cname}.{_first_member(d)}',
+                                {'diff': [list(map(str, i)) for i in d[:3]], 'xml': xml1.decode()[:800]}))
+    except Exception as ex:  # noqa: BLE001
+        if not R.exc_in_library(ex):
+            raise
+        out.append((f'{P}/read-again-raises/{cname}/{R.exc_sig(ex)}', f'{type(ex).__name__}: {str(ex)[:300]}'))
     # --- write again
     try:
         node2, _ = to_xml(y)
